@@ -53,6 +53,9 @@ type shim struct {
 	f    string   // intrinsic / function name in GoMini
 	res  []string // static result types
 	flds []string // kind "extfld": receiver fields passed first and assigned first
+	// with (kinds "extfld", "ext", "extstmt", "primary"): fields passed read-only after flds (for "primary": fields of the
+	// OTHER object handed to the intrinsic that makes the new primary object)
+	with []string
 	// trace (kind "extstmt"): name of a mapped pseudo-field; before the call, the tuple of the call's arguments
 	// (receiver first) is appended to it — a record of what the callee was handed
 	trace string
@@ -77,6 +80,12 @@ type transFunc struct {
 	recvAs  *fieldSpec             // the receiver VALUE itself (a slice type such as multiWriteSyncer) as a field
 	structs map[string][]fieldSpec // struct types passed by value: static type "struct:<name>" is a list of these fields
 	calls   map[string]shim        // "<static type or package>.<Name>" → meaning
+	// a SECOND object of the receiver's type (a clone the function makes, or — after a "primary" statement — the
+	// original receiver): its Go fields map to these GoMini fields; otherAs is the object value itself
+	other   map[string]fieldSpec
+	otherAs *fieldSpec
+	// a pointer PARAMETER that is the object of the field environment (plain functions such as putJSONEncoder(enc))
+	objParam string
 }
 
 // tailSpec: from the first top-level statement whose source text is `from` on, the body is replaced by
@@ -125,6 +134,7 @@ type xl struct {
 	fd          *ast.FuncDecl
 	file        *ast.File // the parsed source file (package-level constants and struct declarations are read from it)
 	recvVar     string
+	otherVar    string // the second object (fields through fn.other)
 	scopes      []map[string]tvar
 	consts      map[string]constant.Value // local const declarations
 	nloc        int
@@ -328,6 +338,9 @@ func (x *xl) namedConst(n ast.Node, txt string) (tx, bool) {
 			if v, ok := x.srcConst(txt); ok {
 				return tx{typ: "untyped", val: v}, true
 			}
+			if b, ok := x.srcVarBytes(txt); ok { // var name = []byte("literal"): a byte-string value
+				return tx{lean: "(.lit (.bytes " + leanBytes(b) + "))", typ: "bytes"}, true
+			}
 			x.fail(n, "constant %s: no package-level declaration with a literal value in %s", txt, x.fn.file)
 		}
 		if strings.HasPrefix(s, "bool:") {
@@ -405,6 +418,43 @@ func (x *xl) srcConst(name string) (constant.Value, bool) {
 	return nil, false
 }
 
+// srcVarBytes finds `var name = []byte("literal")` at package level of the translated file (a variable the whitelist
+// entry declares to be constant, e.g. nullLiteralBytes).
+func (x *xl) srcVarBytes(name string) ([]byte, bool) {
+	if x.file == nil {
+		return nil, false
+	}
+	for _, d := range x.file.Decls {
+		gd, ok := d.(*ast.GenDecl)
+		if !ok || gd.Tok != token.VAR {
+			continue
+		}
+		for _, sp := range gd.Specs {
+			vs := sp.(*ast.ValueSpec)
+			for i, id := range vs.Names {
+				if id.Name != name || i >= len(vs.Values) {
+					continue
+				}
+				c, ok := vs.Values[i].(*ast.CallExpr)
+				if !ok || len(c.Args) != 1 {
+					return nil, false
+				}
+				at, ok := c.Fun.(*ast.ArrayType)
+				if !ok || at.Len != nil || exprString(at.Elt) != "byte" {
+					return nil, false
+				}
+				lit, ok := c.Args[0].(*ast.BasicLit)
+				if !ok || lit.Kind != token.STRING {
+					return nil, false
+				}
+				v := constant.MakeFromLiteral(lit.Value, lit.Kind, 0)
+				return []byte(constant.StringVal(v)), true
+			}
+		}
+	}
+	return nil, false
+}
+
 // srcStructFields: the field names of `type name struct {…}` declared in the translated file, in order.
 func (x *xl) srcStructFields(name string) ([]string, bool) {
 	if x.file == nil {
@@ -456,7 +506,20 @@ func (x *xl) place(e ast.Expr) (lv string, rd string, typ string, ok bool) {
 			f := x.fn.recvAs
 			return "(.fld " + leanStr(f.lean) + ")", "(.fld " + leanStr(f.lean) + ")", f.typ, true
 		}
+		if t.Name == x.otherVar && x.otherVar != "" && x.fn.otherAs != nil {
+			f := x.fn.otherAs
+			return "(.fld " + leanStr(f.lean) + ")", "(.fld " + leanStr(f.lean) + ")", f.typ, true
+		}
 	case *ast.SelectorExpr:
+		if id, ok := t.X.(*ast.Ident); ok && id.Name == x.otherVar && x.otherVar != "" {
+			if _, shadow := x.lookupNonRecv(id.Name); shadow {
+				return "", "", "", false
+			}
+			if f, ok := x.fn.other[t.Sel.Name]; ok {
+				return "(.fld " + leanStr(f.lean) + ")", "(.fld " + leanStr(f.lean) + ")", f.typ, true
+			}
+			x.fail(e, "field %s of the second object %s is not mapped in the whitelist entry", t.Sel.Name, id.Name)
+		}
 		if id, ok := t.X.(*ast.Ident); ok && id.Name == x.recvVar && x.recvVar != "" {
 			if _, shadow := x.lookupNonRecv(id.Name); shadow {
 				return "", "", "", false
@@ -511,6 +574,17 @@ func (x *xl) expr(e ast.Expr) tx {
 				for i, f := range x.fn.structs[v.typ[strings.Index(v.typ, "struct:")+7:]] {
 					if f.lean == t.Sel.Name {
 						return tx{lean: fmt.Sprintf("(.index (.loc %s) (.lit (.int %d)))", leanStr(v.lean), i), typ: f.typ}
+					}
+				}
+				x.fail(e, "field %s of %s is not declared in the whitelist entry", t.Sel.Name, v.typ)
+			}
+		}
+		// a field of a struct-valued expression (ent.Caller.Defined): the inner expression must itself be in the subset
+		if inner, isSel := t.X.(*ast.SelectorExpr); isSel {
+			if v, ok := x.tryExpr(inner); ok && strings.HasPrefix(v.typ, "struct:") {
+				for i, f := range x.fn.structs[v.typ[7:]] {
+					if f.lean == t.Sel.Name {
+						return tx{lean: fmt.Sprintf("(.index %s (.lit (.int %d)))", v.lean, i), typ: f.typ}
 					}
 				}
 				x.fail(e, "field %s of %s is not declared in the whitelist entry", t.Sel.Name, v.typ)
@@ -920,6 +994,20 @@ func (x *xl) callExpr(c *ast.CallExpr) (tx, bool) {
 			case "extstmt":
 				pendingCall = &tcall{ctor: "callX", f: sh.f, args: args, res: sh.res}
 				return tx{}, true
+			case "extfld": // statement  flds… = f(flds…, fnValue, args…): the function value is handed the object
+				var lvs, all []string
+				for _, fl := range sh.flds {
+					fs, ok := x.fn.fields[fl]
+					if !ok {
+						x.fail(c, "shim %s names the unmapped field %s", v.typ+"()", fl)
+					}
+					all = append(all, "(.fld "+leanStr(fs.lean)+")")
+					lvs = append(lvs, "(.fld "+leanStr(fs.lean)+")")
+				}
+				all = append(all, "(.loc "+leanStr(v.lean)+")")
+				all = append(all, args...)
+				pendingCall = &tcall{ctor: "callX", f: sh.f, args: all, res: sh.res, pre: lvs}
+				return tx{}, true
 			case "ext", "builtin":
 				if len(sh.res) != 1 {
 					x.fail(c, "shim %s needs one result type", v.typ+"()")
@@ -1044,6 +1132,7 @@ func (x *xl) callExpr(c *ast.CallExpr) (tx, bool) {
 		if len(sh.res) != 1 {
 			x.fail(c, "shim %s needs one result type", key)
 		}
+		args = append(args, x.withArgs(c, sh, key)...)
 		if hasRecv {
 			args = append(args, recvLean)
 		}
@@ -1095,6 +1184,7 @@ func (x *xl) callExpr(c *ast.CallExpr) (tx, bool) {
 		pendingCall = &tcall{ctor: "cas", targetLV: recvLV, recvRd: recvLean, old: o.lean, new: n.lean, res: []string{"bool"}}
 		return tx{}, true
 	case "extstmt":
+		args = append(args, x.withArgs(c, sh, key)...)
 		if hasRecv {
 			args = append(args, recvLean)
 		}
@@ -1103,10 +1193,9 @@ func (x *xl) callExpr(c *ast.CallExpr) (tx, bool) {
 		x.addTrace(c, sh, key, args)
 		return tx{}, true
 	case "extfld":
-		// statement  flds…, lhs… = f(flds…, args…): an untranslated method of the receiver that reads and writes the listed fields
-		if !isSelf {
-			x.fail(c, "shim extfld %s must be called on the receiver itself", key)
-		}
+		// statement  flds…, lhs… = f(flds…, with…, recv?, args…): an intrinsic that reads and writes the listed fields of
+		// the (primary) object — an untranslated method of the receiver, a function the object is handed to
+		// (addFields(final, …)), a marshaler or sub-encoder called back with the object
 		var lvs []string
 		for _, fl := range sh.flds {
 			fs, ok := x.fn.fields[fl]
@@ -1116,8 +1205,14 @@ func (x *xl) callExpr(c *ast.CallExpr) (tx, bool) {
 			args = append(args, "(.fld "+leanStr(fs.lean)+")")
 			lvs = append(lvs, "(.fld "+leanStr(fs.lean)+")")
 		}
+		args = append(args, x.withArgs(c, sh, key)...)
+		if hasRecv {
+			args = append(args, recvLean)
+		}
 		addArgs()
 		pendingCall = &tcall{ctor: "callX", f: sh.f, args: args, res: sh.res, pre: lvs}
+		x.addTrace(c, sh, key, args)
+		pendingCall.pureTrace = false
 		return tx{}, true
 	case "mutext":
 		if !hasRecv || recvLV == "" {
@@ -1149,6 +1244,19 @@ func (x *xl) callExpr(c *ast.CallExpr) (tx, bool) {
 }
 
 // addTrace: a traced intrinsic records (name, arguments…) in the trace pseudo-field before it is called
+// withArgs: the read-only fields of the primary object a shim passes to its intrinsic
+func (x *xl) withArgs(c *ast.CallExpr, sh shim, key string) []string {
+	var out []string
+	for _, fl := range sh.with {
+		fs, ok := x.fn.fields[fl]
+		if !ok {
+			x.fail(c, "shim %s names the unmapped field %s", key, fl)
+		}
+		out = append(out, "(.fld "+leanStr(fs.lean)+")")
+	}
+	return out
+}
+
 func (x *xl) addTrace(c *ast.CallExpr, sh shim, key string, args []string) {
 	if sh.trace == "" {
 		return
@@ -1671,18 +1779,78 @@ func (x *xl) assign(t *ast.AssignStmt) string {
 		}
 		return "(.assign [" + lv + "] [" + v.lean + "])"
 	}
-	// `v := pool.Get()` with a shim of kind "object" in a plain function: from here on v IS the object whose fields the
-	// entry maps (the field environment at entry describes what Get returns); v.f reads / writes those fields
+	// `v := pool.Get()` with a shim of kind "object": in a plain function v IS the object whose fields the entry maps
+	// (the field environment at entry describes what Get returns); in a METHOD v is the SECOND object (fields through
+	// `other`).  `v := recv.f()` with kind "objectfun": the translated function f is called and v is the second object
+	// it filled.  `v := recv.f()` with kind "primary": an intrinsic makes a new object from the receiver; from here on
+	// v is the PRIMARY object (fields through `fields`, method calls are self calls) and the receiver is the second one.
 	if len(t.Lhs) == 1 && len(t.Rhs) == 1 && t.Tok == token.DEFINE {
 		if c, isCall := t.Rhs[0].(*ast.CallExpr); isCall && len(c.Args) == 0 {
-			if sh, ok := x.fn.calls[exprString(c.Fun)]; ok && sh.kind == "object" {
-				id, isId := t.Lhs[0].(*ast.Ident)
-				if !isId || x.recvVar != "" || x.fd.Recv != nil || x.depth != 1 {
-					x.fail(t, "shim object: only `v := f()` at the top level of a plain function")
+			key := exprString(c.Fun)
+			if sel, ok := c.Fun.(*ast.SelectorExpr); ok {
+				if rid, ok := sel.X.(*ast.Ident); ok && rid.Name == x.recvVar && x.recvVar != "" {
+					key = "recv." + sel.Sel.Name
 				}
-				x.recvVar = id.Name
-				x.legend = append(x.legend, id.Name+" = THE object of the field environment (from "+exprString(c.Fun)+"())")
-				return ".skip"
+			}
+			if sh, ok := x.fn.calls[key]; ok && (sh.kind == "object" || sh.kind == "objectfun" || sh.kind == "primary") {
+				id, isId := t.Lhs[0].(*ast.Ident)
+				if !isId || x.depth != 1 || x.otherVar != "" {
+					x.fail(t, "shim %s: only `v := f()` at the top level, once", sh.kind)
+				}
+				switch {
+				case sh.kind == "object" && x.recvVar == "":
+					x.recvVar = id.Name
+					x.legend = append(x.legend, id.Name+" = THE object of the field environment (from "+exprString(c.Fun)+"())")
+					return ".skip"
+				case sh.kind == "object":
+					if x.fn.other == nil {
+						x.fail(t, "shim object in a method needs an `other` field map")
+					}
+					x.otherVar = id.Name
+					x.legend = append(x.legend, id.Name+" = the SECOND object (from "+exprString(c.Fun)+"())")
+					if sh.f == "" {
+						return ".skip"
+					}
+					pc := &tcall{ctor: "callX", f: sh.f, res: nil}
+					pendingCall = pc
+					x.addTrace(c, sh, key, nil)
+					pendingCall = nil
+					return x.emitCall(t, pc, nil, nil)
+				case sh.kind == "objectfun":
+					if x.fn.other == nil {
+						x.fail(t, "shim objectfun needs an `other` field map")
+					}
+					x.otherVar = id.Name
+					x.legend = append(x.legend, id.Name+" = the SECOND object, filled by the translated "+sh.f)
+					return "(.call [.blank] " + leanStr(sh.f) + " [])"
+				default: // primary
+					if x.fn.other == nil || x.recvVar == "" {
+						x.fail(t, "shim primary needs a receiver and an `other` field map")
+					}
+					var lvs, args []string
+					for _, fl := range sh.flds {
+						fs, ok := x.fn.fields[fl]
+						if !ok {
+							x.fail(t, "shim %s names the unmapped field %s", key, fl)
+						}
+						lvs = append(lvs, "(.fld "+leanStr(fs.lean)+")")
+					}
+					for _, fl := range sh.with {
+						fs, ok := x.fn.other[fl]
+						if !ok {
+							x.fail(t, "shim %s names the unmapped field %s of the receiver", key, fl)
+						}
+						args = append(args, "(.fld "+leanStr(fs.lean)+")")
+					}
+					x.legend = append(x.legend, id.Name+" = the PRIMARY object from here on (made by "+sh.f+"); "+x.recvVar+" = the second object")
+					x.otherVar = x.recvVar
+					x.recvVar = id.Name
+					pc := &tcall{ctor: "callX", f: sh.f, args: args, res: nil, pre: lvs}
+					pendingCall = pc
+					x.addTrace(c, sh, key, args)
+					pendingCall = nil
+					return x.emitCall(t, pc, nil, nil)
+				}
 			}
 		}
 	}
@@ -2206,6 +2374,14 @@ func (x *xl) function() (lean string, err error) {
 			x.fail(f, "unnamed parameter")
 		}
 		for _, n := range f.Names {
+			if x.fn.objParam != "" && n.Name == x.fn.objParam {
+				if x.recvVar != "" {
+					x.fail(f, "objParam in a method")
+				}
+				x.recvVar = n.Name
+				x.legend = append(x.legend, n.Name+" = THE object of the field environment (parameter)")
+				continue
+			}
 			p := tvar{fmt.Sprintf("p%d", np), typ}
 			np++
 			params = append(params, leanStr(p.lean))
